@@ -182,6 +182,8 @@ func tblGen(r *rand.Rand, mode string, thorough bool) tblCase {
 		}
 		if r.Intn(10) == 0 {
 			c.NKeys = pick(r, 1024, 1025, 1500) // a table beyond a thousand records (positions and replacements are sampled)
+		} else if r.Intn(6) == 0 {
+			c.NKeys = pick(r, 65, 66, 67, 130, 131) // between the two: record counts around powers of two, not divisible by four
 		}
 		c.KeyShape = pick(r, 0, 1)
 		c.Loader = pick(r, 0, 0, 1, 3) // the damage arm also reads through the skip-list and the disk index
@@ -623,16 +625,22 @@ func tblDamage(c *Ctx, tc tblCase, tape *simrt.Tape) (vs []tblV, evals int) {
 	if c.Thorough() && len(orig) > 20000 {
 		step = len(orig) / 5000 // a value of 64 KiB: exhaustive positions would take an hour for this one table
 	}
-	big := len(pairs) > 200
+	big := len(pairs) > 40
+	head, tail := 64, 64 // the first and the last bytes of the file (file header, first and last record) are always visited
 	if big {
-		// every open of such a table validates a thousand records and every read-back makes a thousand Gets:
-		// 40 positions x 2 replacements
-		step = len(orig)/40 + 1
+		// every open of such a table validates hundreds of records and every read-back makes as many Gets:
+		// sampled positions x 2 replacements
+		head, tail = 24, 12
+		step = len(orig)/30 + 1
+		if len(pairs) > 200 {
+			head, tail = 16, 8
+			step = len(orig)/24 + 1
+		}
 		full := repl
 		repl = func(old byte) []byte { return full(old)[:2] }
 	}
 	for pos := 0; pos < len(orig); pos++ {
-		if step > 1 && pos%step != 0 && pos > 64 {
+		if step > 1 && pos%step != 0 && pos > head && pos < len(orig)-tail {
 			continue
 		}
 		for _, v := range repl(orig[pos]) {
@@ -657,8 +665,8 @@ func tblDamage(c *Ctx, tc tblCase, tape *simrt.Tape) (vs []tblV, evals int) {
 	// swapped records: exchange the byte ranges of two whole records of equal stored length, or adjacent records
 	if offs := recordOffsets(dir, pairs); len(offs) >= 2 {
 		for i := 0; i+1 < len(offs); i++ {
-			if big && i >= 6 {
-				break
+			if big && i >= 6 && i+4 < len(offs) {
+				continue // the first and the last few pairs of a big table
 			}
 			a0, a1 := offs[i], offs[i+1]
 			b1 := len(orig)
